@@ -29,7 +29,10 @@ RULE = ("builtin: for each of the standard builtins of DefaultEngine().get_built
         "arguments drawn from: unbound/shared variables, atoms, ints, floats, strings, proper/partial/improper lists, "
         "compounds, operators, goals, wrong arity. File-system builtins only receive paths under "
         "tempfile.gettempdir(). Non-trivial: the engine evaluated a call with that name/arity (recorded by a harness "
-        "subclass of DefaultEngine overriding eval_call/eval_builtin and delegating). constructs: 2-6 statements drawn "
+        "subclass of DefaultEngine overriding eval_call/eval_builtin and delegating). Bounded-exhaustive part: every "
+        "registry entry x uniform argument vectors (in a clause body and under \\+), each of the first 4 positions bound in "
+        "turn, and for the standard builtins of arity 2/3 all combinations of a pool of 8/4 shapes evaluated directly as "
+        "a query. constructs: 1-4 statements drawn "
         "from ~120 templates with term/probability/goal holes; non-trivial: the text parsed (the construct reached "
         "the engine). fuzz: C17 fuzz texts; non-trivial: parsed with >= 1 statement. Oracle: ('ok',..) or "
         "('error', ProbLogError subclass) pass, ('crash', sig) fails with that sig, resource exhaustion / watchdog "
@@ -387,7 +390,7 @@ TEMPLATES = [
     # clause heads that are not callable
     "{T} :- c.", "{T}.", "{T} :- {T}.", "p :- {T}.", "p :- {T}, {T}.", "p :- \\+ {T}.", "p :- ({T} ; {T}).", "p :- call({T}).",
     "p(X) :- X.", "p :- X.", "p :- X, c.", "p :- \\+ X.", "p(X) :- call(X, 1).", "p :- 1.", "p :- \"s\".", "p :- [c].", "p :- f(X), X.",
-    "a ; b :- c.", "a ; 0.5::b :- c.", "p :- q. q :- p.", "p :- \\+ p.", "p :- \\+ q. q :- \\+ p.",
+    "p ; q :- c.", "p ; 0.5::q :- c.", "p :- q. q :- p.", "p :- \\+ p.", "p :- \\+ q. q :- \\+ p.",
     # arithmetic
     "p :- X is {A}.", "p :- X is {A}, Y is {A}.", "p :- {A} < {A}.", "p :- {A} =:= {A}.", "p :- {A} >= 1.", "p(X) :- f(X), Y is X + {A}.",
     "p :- 1 is {A}.", "p :- a is {A}.", "p :- X is {A}, X > 0.", "0.5::p :- X is {A}.", "p :- f(X), Z is X / (X - 1).", "p :- {A} =\\= a.",
@@ -506,7 +509,7 @@ def _fuzz_strategy():
     tails = st.sampled_from(["", "", "\nquery(p).", "\nquery(q(_)).", "\nquery(a).", "\nevidence(a).\nquery(b)."])
     texts = st.one_of(gt.mutated_corpus(), gt.mutated_corpus(max_mutations=2), gt.mutated_generated(),
                       gt.mutated(st.sampled_from(gt.SHORT_STATEMENTS), max_mutations=3), gt.token_strings(),
-                      gt.nested_strings())
+                      gt.nested_strings(), gt.skeleton_strings())
     return st.tuples(texts, tails).map(lambda t: {"src": t[0] + t[1]})
 
 
@@ -588,6 +591,40 @@ def _cls_recursive_body_disjunction(case, failure):
     return False
 
 
+def _cls_cyclic_with_negation(case, failure):
+    """Text class for the shared engine finding F-ENG-2: the program has a cyclic predicate dependency and a negated
+    body literal (computed from the parsed statements, not from the failure)."""
+    from problog.logic import Clause, AnnotatedDisjunction, Not, Term
+
+    edges = {}
+    negation = False
+    for st_ in _statements(case):
+        if isinstance(st_, Clause):
+            heads = [st_.head]
+        elif isinstance(st_, AnnotatedDisjunction):
+            heads = list(st_.heads)
+        else:
+            continue
+        body = list(_subterms(st_.body))
+        negation = negation or any(type(x) is Not for x in body)
+        for h in heads:
+            if isinstance(h, Term):
+                edges.setdefault(h.signature, set()).update(
+                    x.signature for x in body if type(x) is Term and not x.is_var())
+    if not negation:
+        return False
+    for start in edges:
+        seen, todo = set(), list(edges[start])
+        while todo:
+            n = todo.pop()
+            if n == start:
+                return True
+            if n not in seen:
+                seen.add(n)
+                todo.extend(edges.get(n, ()))
+    return False
+
+
 def _cls_calls(*names):
     """The program text calls one of the given predicates (name/arity or bare name)."""
     def pred(case, failure):
@@ -604,6 +641,7 @@ def _cls_calls(*names):
 KNOWN_CLASSES = {
     "always": lambda case, failure: True,
     "recursive_body_disjunction": _cls_recursive_body_disjunction,
+    "cyclic_with_negation": _cls_cyclic_with_negation,
     "state_builtins": _cls_calls("set_state", "reset_state", "check_state", "condition", "probabilityX", "print_state"),
     "db_library": _cls_calls("csv_load", "sqlite_load"),
 }
